@@ -2076,7 +2076,13 @@ class _ChunkedTransferDecoder:
                 + len(self._buffer)
                 + (1 if self._buffer.endswith(b"\r") else 2)
             )
-            if minTrailerSize > self._maxTrailerHeadersSize:
+            # An empty buffer or a lone CR may be the start of the CRLF that
+            # terminates the trailer section, which does not count as trailer
+            # data (see the eolIndex == 0 case below).
+            if (
+                self._buffer not in (b"", b"\r")
+                and minTrailerSize > self._maxTrailerHeadersSize
+            ):
                 raise _MalformedChunkedDataError("Trailer headers data is too long.")
             # Continue processing more data.
             return False
